@@ -272,4 +272,12 @@ def in_summary(i):
         return "deposit %s %s" % (i.get("amt"), i.get("denom"))
     if t == "env":
         return "env %s %s" % (i.get("op"), i.get("who"))
+    if t == "ident":
+        return "ident pid=%s over %d counterparty spellings" % (i.get("pid"), len(i.get("ids", [])))
+    if t == "gendoc":
+        return "gendoc %s" % json.dumps(i.get("g"))[:400]
+    if t == "query":
+        return "query %s" % json.dumps(i.get("q"))
+    if t == "reimport":
+        return "reimport"
     return json.dumps({k: v for k, v in i.items() if k in ("t", "q")})[:300]
